@@ -18,6 +18,19 @@ class default), with or without an ``init_point`` attribute on the block densiti
 ``init_point`` attribute of the block's density / nothing (ones), with or without an ``x0`` of their own on the block
 sampler objects.  Crossed with all histories: the FIRST sweep of a run starts from the supplied values, every later
 sweep and every continuation call from the values stored by the previous sweep.
+
+Facet "keys of the legacy sampling strategy" x "order in which the joint lists the blocks": cuqi.sampler.Gibbs accepts
+a TUPLE of names as a key (one sampler class for several blocks).  Every grouping of the blocks into plain-name keys
+and tuple keys (all set partitions; key order and member order varied; groups of one block also as 1-tuples) is
+crossed with every permutation of the blocks in the JointDistribution (= sweep order: members of a tuple adjacent or
+separated by another block) and with joints whose hyper-parameters are directly coupled (hier3h: l ~ Gamma(3, rate=d);
+hier3m: y ~ N(Ax, 1/(d l))).  A block sampler listed under a tuple key learns its block from the target it is handed.
+
+Facet "type of the block's conditional target" (HybridGibbs carries the kernel's cached evaluations over from the
+previous conditional and must re-evaluate them): joints in which the conditional of one block is a
+MultipleLikelihoodPosterior (ml_sp: s enters a likelihood and a prior; ml_2y: x enters two likelihoods; hier3h: d enters
+the densities of two other blocks) or a plain Distribution (prior2: no data, the conditional of x has no likelihood
+factor), that block sampled by spy / MH / (where the library offers the gradient) MALA / NUTS.
 """
 import itertools
 import math
@@ -31,7 +44,10 @@ RULE = ("cell = (interface, joint, assignment of {spy, real...} samplers to bloc
         "order in which the sampling_strategy dict and the num_sampling_steps dict list the blocks relative to the "
         "joint's parameter order, which blocks have a step count given at all, HOW the initial value of each block is "
         "supplied: per block sampler-constructor initial_point / sampler.initial_point attribute / nothing, an "
-        "init_point attribute on the block's density, an x0 on the legacy block sampler objects); "
+        "init_point attribute on the block's density, an x0 on the legacy block sampler objects; the ORDER in which the "
+        "JointDistribution lists the blocks (= sweep order); for cuqi.sampler.Gibbs the KEYS of the sampling strategy: "
+        "plain names / tuples of names that give one sampler class to several blocks; the TYPE of the conditional target "
+        "of a block: Posterior / MultipleLikelihoodPosterior / plain Distribution, decided by the joint); "
         "inside a cell ALL operation sequences of the tier's depth are executed (prefix histories are judged at "
         "every operation end, so a depth-3 execution decides its 3 prefixes) and, with MH / MALA / NUTS blocks, all leaves of "
         "the decision tree of their uniform draws inside the stated deviation bound; state = (history, decision "
@@ -63,7 +79,18 @@ BOUND = {
              "MH block (first block, counts (1..)) and NUTS / MALA on v of gauss2 (counts (1..)) with the uniform supply "
              "the main product does not use; legacy Gibbs all-spy and set-A blocks x ALL {density init_point, "
              "none}^blocks, one MH block with init_point on every density, and block sampler objects built with an x0 "
-             "of their own (set A, one MH block) x {no, every} density init_point",
+             "of their own (set A, one MH block) x {no, every} density init_point; "
+             "strategy-key facet (cuqi.sampler.Gibbs; joints hier3, hier3h (l ~ Gamma(3, rate=d): d,l coupled), hier2, "
+             "gauss2): ALL permutations of the blocks in the JointDistribution x ALL set partitions of the blocks into "
+             "keys (group of >=2 = tuple key); all-spy blocks, depth<=2: hier3/hier2/gauss2 in the usual joint order x "
+             "every key order x every member order, otherwise keys and members in joint order and completely reversed; "
+             "groups of one block also as 1-tuples (not hier3h); real classes: per grouping the first class every member of a "
+             "key admits (Conjugate / LinearRTO / MH), depth<=2 without MH, depth 1 with; HybridGibbs x every "
+             "non-usual joint order (hier3, hier2, gauss2; all-spy and set A, counts (3,1,2), depth<=2); "
+             "conditional-type facet: joints ml_sp (s in a likelihood and a prior), ml_2y (x in two likelihoods), hier3h (d "
+             "in two priors), prior2 (no data: plain Distribution): the non-Posterior block x {spy, MH, on prior2 also "
+             "MALA, NUTS} x others {all spy, set A} x counts {(1..),(3,1,2)}, depth<=2, plus the legacy cells of "
+             "these assignments",
     "thorough": "as quick but: all assignments of {spy,conj|rto,mh,nuts,mala} kinds (hier3c: those with a NUTS/MALA "
                 "block); num_sampling_steps: full {1,2,3}^blocks product (3-block cells with MH: the 3 all-equal "
                 "patterns + the 6 permutations of (1,2,3); 3-block cells with NUTS/MALA: the 3 all-equal patterns + the 3 "
@@ -78,7 +105,11 @@ BOUND = {
                 "(counts (1..)) with the uniform supply the main product does not use; NUTS / MALA (gauss2 and hier3c) x "
                 "{other uniform supply, two alternating patterns, all-attribute} and main supply + density decoy; legacy: "
                 "every assignment with an MH block with init_point on every density, every assignment with an MH / "
-                "LinearRTO block built with an x0 of its own x {no, every} density init_point",
+                "LinearRTO block built with an x0 of its own x {no, every} density init_point; strategy-key facet: also "
+                "joint hier3m (y ~ N(Ax, 1/(d l))), every key order x member order for every joint order, 1-tuples on "
+                "all joints, real classes: ALL assignments of {spy, common class} to the keys (depth<=2 with <=1 MH block, "
+                "else 1) in joint order and reversed; HybridGibbs joint orders also on hier3h, hier3m; conditional-type "
+                "facet: all assignments of the four joints with the main product's step-count patterns and depths",
 }
 ASSUMPTIONS = [
     "reference joint log-densities (and the gradients of the Gaussian vector blocks, self-checked against central "
@@ -112,6 +143,13 @@ ASSUMPTIONS = [
     "changing them on a live sampler, are not enumerated)",
     "legacy Gibbs: a call that raises (second warm-up, continuing after a warm-up-only call) is a refusal and "
     "ends the history",
+    "tuple keys: the blocks listed under one tuple key get one sampler factory, which identifies the block it is built "
+    "for by the single parameter name of the conditional it is handed (a target with another set of parameter names is "
+    "recorded as a transition of the wrong block); cuqi.experimental.mcmc.HybridGibbs takes no tuple keys",
+    "type of the conditional target: decided by the joint (reduction of the conditioned JointDistribution); the observed "
+    "class is recorded per transition (branch counts 'conditional-type:<class>:<kernel>') and enters the signature when "
+    "it is not Posterior; MALA / NUTS on a MultipleLikelihoodPosterior block are not offered (the library has no "
+    "gradient for it when another block's prior is among the factors); CWMH / pCN / ULA blocks are not in the alphabet",
     "dict orders: Python dicts keep insertion order; the blocks of a sweep are expected in the joint's parameter order "
     "(target.get_parameter_names()) whatever the order of the user's dicts",
 ]
@@ -144,11 +182,12 @@ def _gauss_iso(x, mean, var):
 class Model:
     """A joint target: how to build it in CUQIpy, and its reference log-density / conditionals."""
 
-    def __init__(self, name, k):
+    def __init__(self, name, k, jorder=None):
         self.name = name
         self.k = k
         n, m = 2, 3
         self.n, self.m = n, m
+        self.special = None       # the block whose conditional is not a Posterior (facet "type of the conditional")
         self.A = refs.full_matrix(m, n, k)
         self.y = refs.dyadic_vec(m, k + 2, scale=0.25)
         self.mx = refs.dyadic_vec(n, k + 1, scale=0.125)
@@ -178,8 +217,59 @@ class Model:
             self.mu = refs.dyadic_vec(n, k + 3, scale=0.125)
             self.init = {"u": refs.dyadic_vec(n, k + 5, scale=0.25), "v": refs.dyadic_vec(n, k + 6, scale=0.25)}
             self.real = {"u": ["mh"], "v": ["rto", "mh", "nuts", "mala"]}
+        elif name in ("hier3h", "hier3m"):
+            # joints in which the hyper-parameters d and l are DIRECTLY coupled.  hier3h: l ~ Gamma(3, rate=d), a
+            # hyper-parameter of a hyper-parameter; d enters the densities of l and of x, its conditional has two
+            # likelihood factors (MultipleLikelihoodPosterior).  hier3m: d and l enter the same density,
+            # y ~ N(Ax, 1/(d l)).
+            self.order = ["d", "l", "x"]
+            self.kind = {"d": "pos", "l": "pos", "x": "vec"}
+            self.dim = {"d": 1, "l": 1, "x": n}
+            self.hyper = {"d": (2.0, 1.5), "l": (3.0, 0.5)}
+            self.init = {"d": np.array([2.0]), "l": np.array([1.5]), "x": refs.dyadic_vec(n, k + 4, scale=0.25)}
+            if name == "hier3h":
+                self.real = {"d": ["mh"], "l": ["conj", "mh"], "x": ["rto", "mh"]}
+                self.special = "d"
+            else:
+                self.real = {"d": ["mh"], "l": ["mh"], "x": ["rto", "mh"]}
+        elif name == "ml_sp":
+            # s enters a likelihood AND a prior: x ~ N(mx, 4/s), y ~ N(Ax, 1/s); conditional of s = prior x two
+            # likelihood factors (MultipleLikelihoodPosterior)
+            self.order = ["s", "x"]
+            self.kind = {"s": "pos", "x": "vec"}
+            self.dim = {"s": 1, "x": n}
+            self.hyper = {"s": (2.0, 1.0)}
+            self.init = {"s": np.array([1.5]), "x": refs.dyadic_vec(n, k + 4, scale=0.25)}
+            self.real = {"s": ["mh"], "x": ["rto", "mh"]}
+            self.special = "s"
+        elif name == "ml_2y":
+            # x enters TWO likelihoods (two data sets y, z): its conditional is a MultipleLikelihoodPosterior
+            self.order = ["d", "x"]
+            self.kind = {"d": "pos", "x": "vec"}
+            self.dim = {"d": 1, "x": n}
+            self.hyper = {"d": (2.0, 1.0)}
+            self.C = refs.full_matrix(n, n, k + 1) * 0.5
+            self.z = refs.dyadic_vec(n, k + 8, scale=0.25)
+            self.init = {"d": np.array([1.5]), "x": refs.dyadic_vec(n, k + 4, scale=0.25)}
+            self.real = {"d": ["conj", "mh"], "x": ["mh"]}
+            self.special = "x"
+        elif name == "prior2":
+            # no data at all: the conditional of x has no likelihood factor, it is a plain Distribution (Gaussian)
+            self.order = ["d", "x"]
+            self.kind = {"d": "pos", "x": "vec"}
+            self.dim = {"d": 1, "x": n}
+            self.hyper = {"d": (2.0, 1.5)}
+            self.init = {"d": np.array([2.0]), "x": refs.dyadic_vec(n, k + 4, scale=0.25)}
+            self.real = {"d": ["mh"], "x": ["mh", "nuts", "mala"]}
+            self.special = "x"
         else:
             raise ValueError(name)
+        self.base_order = list(self.order)
+        if jorder is not None:
+            # facet "order in which the joint lists the blocks" (= the order of a sweep)
+            if sorted(jorder) != list(range(len(self.order))):
+                raise HarnessError("jorder %r is not a permutation" % (jorder,))
+            self.order = [self.base_order[i] for i in jorder]
         # the values a block is started from wherever the cell SUPPLIES an initial value for it (facet "init")
         self.ival = (self.init if self.init is not None else
                      {"x": refs.dyadic_vec(n, k + 4, scale=0.25), "d": np.array([2.0])})
@@ -202,7 +292,10 @@ class Model:
             for dn in dens:
                 if init_points and dn.name in init_points:
                     dn.init_point = np.array(init_points[dn.name], dtype=float, copy=True)
-            return JointDistribution(*dens)
+            # the blocks in the order of this cell (facet "joint order"), then the data densities
+            byname = {dn.name: dn for dn in dens}
+            rest = [dn for dn in dens if dn.name not in self.order]
+            return JointDistribution(*([byname[b] for b in self.order] + rest))
         if self.name in ("hier3", "hier3c"):
             d = Gamma(*self.hyper["d"], name="d")
             l = Gamma(*self.hyper["l"], name="l")
@@ -217,6 +310,34 @@ class Model:
             x = Gaussian(self.mx.copy(), prec=lambda d: d, name="x")
             y = Gaussian(A @ x, 0.25, name="y")
             return joint(x, d, y)(y=self.y.copy())
+        if self.name == "hier3h":
+            d = Gamma(*self.hyper["d"], name="d")
+            l = Gamma(self.hyper["l"][0], lambda d: d, name="l")
+            x = Gaussian(self.mx.copy(), prec=lambda d: d, name="x")
+            y = Gaussian(A @ x, cov=lambda l: 1 / l, name="y")
+            return joint(d, l, x, y)(y=self.y.copy())
+        if self.name == "hier3m":
+            d = Gamma(*self.hyper["d"], name="d")
+            l = Gamma(*self.hyper["l"], name="l")
+            x = Gaussian(self.mx.copy(), 0.5, name="x")
+            y = Gaussian(A @ x, cov=lambda d, l: 1 / (d * l), name="y")
+            return joint(d, l, x, y)(y=self.y.copy())
+        if self.name == "ml_sp":
+            s_ = Gamma(*self.hyper["s"], name="s")
+            x = Gaussian(self.mx.copy(), cov=lambda s: 4 / s, name="x")
+            y = Gaussian(A @ x, cov=lambda s: 1 / s, name="y")
+            return joint(s_, x, y)(y=self.y.copy())
+        if self.name == "ml_2y":
+            C = cuqi.model.LinearModel(self.C.copy())
+            d = Gamma(*self.hyper["d"], name="d")
+            x = Gaussian(self.mx.copy(), 0.5, name="x")
+            y = Gaussian(A @ x, cov=lambda d: 1 / d, name="y")
+            z = Gaussian(C @ x, 0.25, name="z")
+            return joint(d, x, y, z)(y=self.y.copy(), z=self.z.copy())
+        if self.name == "prior2":
+            d = Gamma(*self.hyper["d"], name="d")
+            x = Gaussian(self.mx.copy(), cov=lambda d: 1 / d, name="x")
+            return joint(d, x)
         B = self.B.copy()
         u = Gaussian(self.mu.copy(), self.Cu.copy(), name="u")
         v = Gaussian(lambda u: B @ u, 0.5, geometry=self.n, name="v")
@@ -252,6 +373,35 @@ class Model:
                 return -np.inf
             return (_gamma_logpdf(d, *self.hyper["d"]) + _gauss_iso(x, self.mx, 1.0 / d)
                     + _gauss_iso(self.y, self.A @ x, 0.25))
+        if self.name == "hier3h":
+            d, l, x = float(v["d"][0]), float(v["l"][0]), v["x"]
+            if not (d > 0 and l > 0):
+                return -np.inf
+            return (_gamma_logpdf(d, *self.hyper["d"]) + _gamma_logpdf(l, self.hyper["l"][0], d)
+                    + _gauss_iso(x, self.mx, 1.0 / d) + _gauss_iso(self.y, self.A @ x, 1.0 / l))
+        if self.name == "hier3m":
+            d, l, x = float(v["d"][0]), float(v["l"][0]), v["x"]
+            if not (d > 0 and l > 0):
+                return -np.inf
+            return (_gamma_logpdf(d, *self.hyper["d"]) + _gamma_logpdf(l, *self.hyper["l"])
+                    + _gauss_iso(x, self.mx, 0.5) + _gauss_iso(self.y, self.A @ x, 1.0 / (d * l)))
+        if self.name == "ml_sp":
+            s_, x = float(v["s"][0]), v["x"]
+            if not s_ > 0:
+                return -np.inf
+            return (_gamma_logpdf(s_, *self.hyper["s"]) + _gauss_iso(x, self.mx, 4.0 / s_)
+                    + _gauss_iso(self.y, self.A @ x, 1.0 / s_))
+        if self.name == "ml_2y":
+            d, x = float(v["d"][0]), v["x"]
+            if not d > 0:
+                return -np.inf
+            return (_gamma_logpdf(d, *self.hyper["d"]) + _gauss_iso(x, self.mx, 0.5)
+                    + _gauss_iso(self.y, self.A @ x, 1.0 / d) + _gauss_iso(self.z, self.C @ x, 0.25))
+        if self.name == "prior2":
+            d, x = float(v["d"][0]), v["x"]
+            if not d > 0:
+                return -np.inf
+            return _gamma_logpdf(d, *self.hyper["d"]) + _gauss_iso(x, self.mx, 1.0 / d)
         u, w = v["u"], v["v"]
         return (refs.gauss_logpdf(u, self.mu, self.Cu) + _gauss_iso(w, self.B @ u, 0.5)
                 + _gauss_iso(self.y, self.A @ w, 0.25))
@@ -264,6 +414,10 @@ class Model:
     def cond_grad(self, b, val, cur):
         """Gradient of the conditional log-density of a vector block (all are Gaussian in the block)."""
         z = np.asarray(val, float).ravel()
+        if self.name == "prior2":
+            return -float(cur["d"][0]) * (z - self.mx)
+        if self.name not in ("hier3", "hier3c", "hier2", "gauss2"):
+            raise HarnessError("no reference gradient for joint %r" % self.name)
         if self.name in ("hier3", "hier3c", "hier2"):
             d = float(cur["d"][0])
             lam = float(cur["l"][0]) if "l" in cur else 4.0
@@ -275,7 +429,11 @@ class Model:
     def conj_params(self, b, cur):
         """Exact Gamma conditional (shape, rate) of a precision-type block."""
         a, r = self.hyper[b]
-        if b == "d":
+        if self.name == "hier3h" and b == "l":
+            r = float(cur["d"][0])          # l ~ Gamma(3, rate=d)
+        elif self.name not in ("hier3", "hier3c", "hier2") and not (self.name == "ml_2y" and b == "d"):
+            raise HarnessError("no reference conjugate update for block %r of joint %r" % (b, self.name))
+        if b == "d" and self.name != "ml_2y":
             res = cur["x"] - self.mx
             return a + 0.5 * self.n, r + 0.5 * float(res @ res)
         res = self.A @ cur["x"] - self.y
@@ -283,12 +441,18 @@ class Model:
 
     def rto_solution(self, b, cur, e):
         """argmin || M x - (b~ + e) ||  for the scripted noise e (likelihood rows first, then prior rows)."""
-        if self.name in ("hier3", "hier3c"):
+        if self.name in ("hier3", "hier3c", "hier3h"):
             sl, sp, pm = math.sqrt(float(cur["l"][0])), math.sqrt(float(cur["d"][0])), self.mx
+        elif self.name == "hier3m":
+            sl, sp, pm = math.sqrt(float(cur["d"][0]) * float(cur["l"][0])), math.sqrt(2.0), self.mx
+        elif self.name == "ml_sp":
+            sl, sp, pm = math.sqrt(float(cur["s"][0])), math.sqrt(float(cur["s"][0]) / 4.0), self.mx
         elif self.name == "hier2":
             sl, sp, pm = 2.0, math.sqrt(float(cur["d"][0])), self.mx
-        else:
+        elif self.name == "gauss2":
             sl, sp, pm = 2.0, math.sqrt(2.0), self.B @ cur["u"]
+        else:
+            raise HarnessError("no reference LinearRTO solution for joint %r" % self.name)
         M = np.vstack([sl * self.A, sp * np.eye(self.n)])
         rhs = np.concatenate([sl * self.y, sp * pm]) + e
         return np.linalg.lstsq(M, rhs, rcond=None)[0]
@@ -329,6 +493,31 @@ MALA_SCALE = 0.0625
 # ========================================================================================
 # recording block samplers
 # ========================================================================================
+def _target_type(target):
+    """Facet 'type of the block's conditional target': Posterior / MultipleLikelihoodPosterior / Distribution."""
+    import cuqi
+    D = cuqi.distribution
+    if isinstance(target, D.MultipleLikelihoodPosterior):
+        return "MultipleLikelihoodPosterior"
+    if isinstance(target, D.Posterior):
+        return "Posterior"
+    if isinstance(target, D.JointDistribution):
+        return "JointDistribution"
+    if isinstance(target, D.Distribution):
+        return "Distribution"
+    return type(target).__name__
+
+
+def _block_of(target):
+    """The block a conditional target is for (a block sampler listed under a TUPLE key of the legacy strategy is
+    one factory for several blocks: it learns its block from the target it is handed)."""
+    try:
+        names = list(target.get_parameter_names())
+    except Exception:   # noqa
+        return "?"
+    return names[0] if len(names) == 1 else "?" + ",".join(str(n_) for n_ in names)
+
+
 class Recorder:
     def __init__(self, model, stream):
         self.model = model
@@ -340,7 +529,7 @@ class Recorder:
     def before(self, block, kind, target, start, scale=None, extra=None):
         ev = {"block": block, "kind": kind, "scale": None if scale is None else float(np.ravel(scale)[0]),
               "start": np.array(start, dtype=float, copy=True).ravel(), "probes": [], "probe_error": None,
-              "gprobe": None, "extra": extra}
+              "gprobe": None, "extra": extra, "ttype": _target_type(target)}
         # all 3 probes at the first transition of a visit (new target object / other block before), 1 probe
         # (detects in-place changes of the target) on the following transitions of the same visit
         same = self.events and self.events[-1]["block"] == block and self._last_target is target
@@ -455,9 +644,13 @@ class LegacyBlock:
         import cuqi
         self.r, self.block, self.kind, self.target = recorder, block, kind, target
         self.inner = None
+        if block not in recorder.model.kind:
+            # handed a target that is not the conditional of one block: recorded (the judge reports the wrong
+            # block), the value is left where it is
+            self.kind = kind = "unknown"
         # x0_decoy: the block sampler object itself is built with an x0 of its own (where its class has one); within
         # a sweep it must nevertheless start from the block's current value, which Gibbs hands to step(x)
-        kw = {"x0": recorder.model.decoy(block)} if x0_decoy else {}
+        kw = {"x0": recorder.model.decoy(block)} if (x0_decoy and kind != "unknown") else {}
         if kind == "mh":
             self.inner = cuqi.sampler.MH(target, scale=MH_SCALE[recorder.model.kind[block]], **kw)
         elif kind == "conj":
@@ -468,13 +661,15 @@ class LegacyBlock:
     def step(self, x):
         r = self.r
         ev = r.before(self.block, self.kind, self.target, x, getattr(self.inner, "scale", None))
-        if self.kind == "spy":
+        if self.kind == "unknown":
+            val = np.array(x, dtype=float, copy=True)
+        elif self.kind == "spy":
             val = spy_value(r.model.kind[self.block], r.model.dim[self.block], r.spy_count)
             r.spy_count += 1
         else:
             val = self.inner.step(x)
         r.after(ev, val, None)
-        return np.asarray(val).reshape(-1) if self.kind == "spy" else val
+        return np.asarray(val).reshape(-1) if self.kind in ("spy", "unknown") else val
 
 
 # ========================================================================================
@@ -514,10 +709,29 @@ def run_history(cell, model, seq, decisions):
             else:
                 import cuqi
                 strat = {}
-                for i in sorder:
-                    b = model.order[i]
-                    strat[b] = (lambda target, _b=b, _k=cell["assign"][i]:
-                                LegacyBlock(recorder, _b, _k, target, bool(cell.get("x0_decoy"))))
+                if cell.get("skeys") is not None:
+                    # facet "keys of the sampling strategy": a plain name (int) or a TUPLE of names (list) that
+                    # assigns one sampler class to several blocks; keys and tuple members in the order written
+                    covered = []
+                    for key in cell["skeys"]:
+                        members = list(key) if isinstance(key, list) else [key]
+                        covered += members
+                        kinds = sorted({cell["assign"][i] for i in members})
+                        if len(kinds) != 1:
+                            raise HarnessError("blocks under one tuple key need one sampler class: %r" % (cell,))
+                        fac = (lambda target, _k=kinds[0]:
+                               LegacyBlock(recorder, _block_of(target), _k, target, bool(cell.get("x0_decoy"))))
+                        if isinstance(key, list):
+                            strat[tuple(model.order[i] for i in key)] = fac
+                        else:
+                            strat[model.order[key]] = fac
+                    if sorted(covered) != list(range(nb)):
+                        raise HarnessError("strategy keys do not cover every block once: %r" % (cell,))
+                else:
+                    for i in sorder:
+                        b = model.order[i]
+                        strat[b] = (lambda target, _b=b, _k=cell["assign"][i]:
+                                    LegacyBlock(recorder, _b, _k, target, bool(cell.get("x0_decoy"))))
                 G = cuqi.sampler.Gibbs(joint, strat)
         except HarnessError:
             raise
@@ -636,6 +850,12 @@ class Judge:
         ident = list(range(nb))
         permuted = (cell.get("sorder") or ident) != ident or (cell.get("norder") or ident) != ident
         self.order_facet = ",dict-order=permuted" if permuted else ""
+        # facet "key of the sampling strategy the block is listed under" (legacy; empty for plain names)
+        self.key_facet = {b: "" for b in model.order}
+        for key in cell.get("skeys") or []:
+            if isinstance(key, list):
+                for i in key:
+                    self.key_facet[model.order[i]] = ",key=tuple" if len(key) > 1 else ",key=1-tuple"
         # facet "how the initial value of each block is supplied" (empty for the cells of the main product)
         codes = model.init_codes(cell)
         if cell["iface"] == "legacy":
@@ -732,7 +952,7 @@ class Judge:
                     for b in model.order:
                         for t in range(nsteps[b]):
                             if ei >= len(events) or ei >= obs["ops"][oi]["n_events"]:
-                                self.fail("sweep", "missing-transition" + self.order_facet,
+                                self.fail("sweep", "missing-transition" + self.order_facet + self.key_facet[b],
                                           "block %r: transition %d of %d of sweep %d in op %d was not made" %
                                           (b, t + 1, nsteps[b], sw, oi))
                                 return compared
@@ -741,10 +961,13 @@ class Judge:
                             ndec += len(ev.get("dec", ()))
                             res.transitions += 1
                             kind = assign[b]
+                            # facet "type of the conditional target" (empty for a Posterior)
+                            ctf = "" if ev.get("ttype") == "Posterior" else ",conditional=%s" % ev.get("ttype")
+                            res.count("conditional-type:%s:%s" % (ev.get("ttype"), kind))
                             if ev["block"] != b:
                                 prev_b = events[ei - 2]["block"] if ei >= 2 else None
                                 facet = ("transition-count" if (t > 0 or ev["block"] == prev_b) else "block-order")
-                                self.fail("sweep", facet + self.order_facet,
+                                self.fail("sweep", facet + self.order_facet + self.key_facet[b],
                                           "expected a transition of block %r (step %d of the configured %d), the sampler "
                                           "of block %r ran" % (b, t + 1, nsteps[b], ev["block"]))
                                 return compared
@@ -759,7 +982,7 @@ class Judge:
                                     why = "; it is the initial value supplied for the run (%s)" % codes[model.order.index(b)]
                                 elif ev["start"].shape == run_start[b].shape and np.array_equal(ev["start"], run_start[b]):
                                     why = "; it restarts from the initial value of the run"
-                                self.fail("block-start", facet + self.init_facet,
+                                self.fail("block-start", facet + self.init_facet + self.key_facet[b],
                                           "block %r starts at %s, its current value is %s%s (op %d sweep %d step %d)" %
                                           (b, ev["start"], cur[b], why, oi, sw, t), events_before=ei - 1)
                                 return compared
@@ -796,7 +1019,7 @@ class Judge:
                                             break
                                     if found:
                                         break
-                                self.fail("conditional", facet + self.init_facet,
+                                self.fail("conditional", facet + self.init_facet + self.key_facet[b] + ctf,
                                           "target handed to block %r is not the joint conditioned on the current other "
                                           "blocks %s: logd at probes %s, reference %s" %
                                           (b, {o: cur[o].tolist() for o in model.order if o != b}, ev["probes"], ref),
@@ -806,7 +1029,7 @@ class Judge:
                                 gref = model.cond_grad(b, model.probes(b)[0], cur)
                                 res.evaluations += 1
                                 if ev["gprobe"].shape != gref.shape or not close(ev["gprobe"], gref, 1e-9):
-                                    self.fail("conditional", "gradient",
+                                    self.fail("conditional", "gradient" + ctf,
                                               "gradient of the target handed to block %r at %s is %s; gradient of the joint "
                                               "conditioned on the current other blocks is %s" %
                                               (b, model.probes(b)[0], ev["gprobe"], gref), at_op=oi, sweep=sw, step=t)
@@ -856,7 +1079,7 @@ class Judge:
                                             p_stale = min(1.0, math.exp(min(0.0, c_new - cached[b])))
                                             facet = ("stale-cached-logd" if abs(p_got - p_stale) <= 1e-9
                                                      else "acceptance-probability")
-                                            self.fail("mh-block", facet,
+                                            self.fail("mh-block", facet + ctf,
                                                       "MH block %r accepts x'=%s from x=%s with probability %.12g; under the "
                                                       "conditional given the current other blocks it must be min(1, "
                                                       "cond(x')/cond(x)) = %.12g%s" %
@@ -880,13 +1103,13 @@ class Judge:
                                 res.evaluations += 1
                                 ex = ev["extra"]
                                 if not close(ex["cached_logd"], c_old, 1e-9):
-                                    self.fail("%s-block" % kind, "stale-cached-logd",
+                                    self.fail("%s-block" % kind, "stale-cached-logd" + ctf,
                                               "%s block %r starts its transition with log-density %.12g cached for its "
                                               "current point; under the conditional given the current other blocks it is "
                                               "%.12g" % (kind, b, ex["cached_logd"], c_old), at_op=oi, sweep=sw, step=t)
                                     return compared
                                 if ex["cached_grad"].shape != g_old.shape or not close(ex["cached_grad"], g_old, 1e-9):
-                                    self.fail("%s-block" % kind, "stale-cached-gradient",
+                                    self.fail("%s-block" % kind, "stale-cached-gradient" + ctf,
                                               "%s block %r starts its transition with cached gradient %s; under the "
                                               "conditional given the current other blocks it is %s" %
                                               (kind, b, ex["cached_grad"], g_old), at_op=oi, sweep=sw, step=t)
@@ -910,7 +1133,7 @@ class Judge:
                                                          - logq(prop, ev["start"], g_old)))
                                     res.evaluations += 1
                                     if abs(p_got - p_ref) > 1e-9:
-                                        self.fail("mala-block", "acceptance-probability",
+                                        self.fail("mala-block", "acceptance-probability" + ctf,
                                                   "MALA block %r accepts x'=%s from x=%s with probability %.12g; the "
                                                   "Metropolis-Hastings ratio under the conditional given the current other "
                                                   "blocks is %.12g" % (b, prop, ev["start"], p_got, p_ref),
@@ -932,7 +1155,7 @@ class Judge:
                                     res.evaluations += len(ans.asked)
                                     bad = [(i_, pr, pg) for i_, (pr, pg) in enumerate(ans.asked) if abs(pr - pg) > 1e-9]
                                     if bad:
-                                        self.fail("nuts-block", "decision-probability",
+                                        self.fail("nuts-block", "decision-probability" + ctf,
                                                   "NUTS block %r: uniform draw %d of the transition is compared with "
                                                   "%.12g, the reference kernel on the conditional given the current other "
                                                   "blocks compares with %.12g" % (b, bad[0][0], bad[0][2], bad[0][1]),
@@ -1196,6 +1419,141 @@ def _init_cells(model, tier, k):
             yield hyb(an, base, True, ns=[1] * nb)
 
 
+def _set_partitions(items):
+    """All partitions of a list into non-empty groups (groups and members in the order of `items`)."""
+    if not items:
+        yield []
+        return
+    first, rest = items[0], items[1:]
+    for part in _set_partitions(rest):
+        yield [[first]] + part
+        for i in range(len(part)):
+            yield part[:i] + [[first] + part[i]] + part[i + 1:]
+
+
+def _layouts(part, full):
+    """Ways of writing one grouping as the keys of a strategy dict: a group of one block is a plain name (int), a
+    group of several blocks a tuple key (list).  full: every order of the keys x every order of the members of
+    each tuple; else the joint's order and the completely reversed one."""
+    part = sorted([sorted(g) for g in part])
+    if full:
+        out = []
+        for gorder in itertools.permutations(part):
+            for members in itertools.product(*[list(itertools.permutations(g)) for g in gorder]):
+                out.append([list(m) if len(m) > 1 else m[0] for m in members])
+        return out
+    fwd = [list(g) if len(g) > 1 else g[0] for g in part]
+    bwd = [list(g[::-1]) if len(g) > 1 else g[0] for g in part[::-1]]
+    return [fwd] if fwd == bwd else [fwd, bwd]
+
+
+def _key_cells(name, tier, k):
+    """cuqi.sampler.Gibbs, facet 'keys of the sampling strategy' x facet 'order in which the joint lists the blocks':
+    every grouping of the blocks into plain-name keys and TUPLE keys (one sampler class for several blocks) crossed
+    with every joint order (members of a tuple adjacent / separated by another block in the sweep)."""
+    quick = tier == "quick"
+    base = Model(name, k)
+    nb = len(base.order)
+    ident = list(range(nb))
+    coupled = name in ("hier3h", "hier3m")
+
+    def leg(jorder, assign, skeys, depth, full_tree=4):
+        return {"iface": "legacy", "model": name, "assign": list(assign), "nsteps": None, "depth": depth,
+                "full_tree": full_tree, "cat": k, "jorder": list(jorder), "skeys": skeys}
+
+    for jorder in _perms(nb):
+        order = [base.order[i] for i in jorder]
+        real = [[r for r in base.real[b] if r not in GRAD_KINDS] for b in order]
+        for part in _set_partitions(ident):
+            has_tuple = any(len(g) > 1 for g in part)
+            # ---- all-spy blocks: every way of writing the grouping ----
+            # (quick: every key order x member order for the joint in its usual order, the joint's order and the
+            # completely reversed one for the other joint orders and for the coupled joints)
+            for skeys in _layouts(part, full=(not quick) or (not coupled and jorder == ident)):
+                if not has_tuple and jorder == ident:
+                    continue            # plain names, joint in its usual order: the dict-order facet of the main product
+                yield leg(jorder, ["spy"] * nb, skeys, 2)
+            # groups of one block written as 1-tuples
+            if any(len(g) == 1 for g in part) and (not coupled or not quick):
+                yield leg(jorder, ["spy"] * nb, [list(g) for g in sorted(sorted(g) for g in part)], 2)
+            # ---- real sampler classes: one class per key (a class every member of the key admits) ----
+            common = []
+            for g in sorted(sorted(g) for g in part):
+                common.append([kd for kd in real[g[0]] if all(kd in real[i] for i in g)])
+            if quick:
+                choices = [[c[0] for c in common]] if all(common) else []
+            else:
+                choices = [list(c) for c in itertools.product(*[["spy"] + c for c in common])
+                           if any(kd != "spy" for kd in c)]
+            for ch in choices:
+                assign = [None] * nb
+                for g, kd in zip(sorted(sorted(g) for g in part), ch):
+                    for i in g:
+                        assign[i] = kd
+                nmh = sum(1 for a in assign if a == "mh")
+                if not has_tuple and jorder == ident:
+                    continue
+                depth = (1 if nmh else 2) if quick else (2 if nmh <= 1 else 1)
+                for skeys in _layouts(part, full=False)[:1 if quick else 2]:
+                    yield leg(jorder, assign, skeys, depth, 4 if quick else 8)
+
+
+def _jorder_cells(name, tier, k):
+    """HybridGibbs, facet 'order in which the joint lists the blocks' (the sweep follows the joint, whatever it is)."""
+    base = Model(name, k)
+    nb = len(base.order)
+    for jorder in _perms(nb):
+        if jorder == list(range(nb)):
+            continue
+        order = [base.order[i] for i in jorder]
+        setA = [[r for r in base.real[b] if r not in GRAD_KINDS][0] for b in order]
+        for assign in (["spy"] * nb, setA):
+            nd = _ndec(assign)
+            yield {"iface": "hybrid", "model": name, "assign": list(assign), "nsteps": [3, 1, 2][:nb], "depth": 2,
+                   "full_tree": 4 if (tier == "quick" or not nd) else 8, "cat": k, "jorder": list(jorder)}
+
+
+def _ctype_cells(name, tier, k):
+    """Facet 'type of the conditional target of a block': joints in which one block's conditional is not a Posterior
+    (MultipleLikelihoodPosterior: the block enters a likelihood and a prior / two likelihoods / the densities of two
+    other blocks; plain Distribution: no likelihood factor at all).  That block gets every kernel it admits (spy, MH,
+    and where the library offers the gradient MALA / NUTS), the other blocks spies or their set-A samplers."""
+    quick = tier == "quick"
+    model = Model(name, k)
+    nb = len(model.order)
+    sp = model.special
+    if quick:
+        first = {b: [r for r in model.real[b] if r not in GRAD_KINDS][0] for b in model.order}
+        assigns = []
+        for kd in ["spy"] + model.real[sp]:
+            for oth in ("spy", "A"):
+                assigns.append([kd if b == sp else ("spy" if oth == "spy" else first[b]) for b in model.order])
+    else:
+        assigns = _assignments(model, "thorough")
+    for assign in assigns:
+        nmh = sum(1 for a in assign if a == "mh")
+        nnuts = sum(1 for a in assign if a == "nuts")
+        ngrad = sum(1 for a in assign if a in GRAD_KINDS)
+        ndec = nmh + ngrad
+        for ns in ([[1] * nb, [3, 1, 2][:nb]] if quick else _nsteps(nb, tier, nmh, ngrad)):
+            if ndec == 0:
+                depth, full = (2 if quick else 3), 0
+            elif quick:
+                depth, full = 2, 4
+            else:
+                depth = 3 if (ndec == 1 and ns == [1] * nb) else 2
+                full = 8 if depth == 2 else 6
+            cell = {"iface": "hybrid", "model": name, "assign": list(assign), "nsteps": list(ns), "depth": depth,
+                    "full_tree": full, "cat": k}
+            if nnuts:
+                cell["nuts_depth"] = 0
+            yield cell
+        if not ngrad and (not quick or assign[model.order.index(sp)] != "spy" or "mh" not in assign):
+            yield {"iface": "legacy", "model": name, "assign": list(assign), "nsteps": None,
+                   "depth": 2 if (quick or nmh > 1) else 3,
+                   "full_tree": 4 if quick else (8 if nmh > 1 else 6), "cat": k}
+
+
 def _cost(c):
     """Rough relative cost of a cell (only used to ORDER the cells; the set of cells is not affected)."""
     nops = len(HYBRID_OPS if c["iface"] == "hybrid" else LEGACY_OPS)
@@ -1263,6 +1621,17 @@ def _cells(tier, seed):
             yield c
         for c in _init_cells(model, tier, k):
             yield c
+    # ---- facet "keys of the legacy sampling strategy" x "joint order"; coupled hyper-parameters ----
+    for mname in (("hier3", "hier3h", "hier2", "gauss2") if quick else ("hier3", "hier3h", "hier3m", "hier2", "gauss2")):
+        for c in _key_cells(mname, tier, k):
+            yield c
+    for mname in (("hier3", "hier2", "gauss2") if quick else ("hier3", "hier3h", "hier3m", "hier2", "gauss2")):
+        for c in _jorder_cells(mname, tier, k):
+            yield c
+    # ---- facet "type of the conditional target of a block" ----
+    for mname in ("ml_sp", "ml_2y", "prior2", "hier3h"):
+        for c in _ctype_cells(mname, tier, k):
+            yield c
 
 
 # ========================================================================================
@@ -1284,7 +1653,7 @@ def _count_decisions(cell, seq):
 def eval_cell(cell):
     import cuqi  # noqa: F401 - import outside any scripted stream (scipy.stats draws a default_rng at import)
     res = _Res(cell)
-    model = Model(cell["model"], cell["cat"])
+    model = Model(cell["model"], cell["cat"], cell.get("jorder"))
     ops = HYBRID_OPS if cell["iface"] == "hybrid" else LEGACY_OPS
     judge = Judge(res, cell, model)
     has_mh = any(a in DEC_KINDS for a in cell["assign"])
